@@ -39,7 +39,7 @@ HAZARD = ["+", "-", "^", "%", "//", "@", ",", ";", "=", "<", ">", "==", "!=", "l
           "**", "*", "/", "1", "0", "2", ".5", "m", "s", "kg", " ", "1//0", "[5]", "{}[m]", "(1//0)", ".nope", "[0]", "()"]
 NONVOCAB = [
     ("subscript", "[m,s][0]"), ("subscript", "(m,s)[1]"), ("subscript", "'m'[0]"), ("subscript", "{1:m}[1]"), ("call:Integer", "Integer(3)*m"), ("call:Float", "Float(2.5)*m"),
-    ("call:Rational", "Rational(1,2)*m"), ("call:Symbol", "Symbol('m')"), ("call:Symbol", "Symbol('s', positive=True)*m"), ("call:abs", "abs(-1)*m"), ("call:len", "len('aa')*m"),
+    ("call:Rational", "Rational(1,2)*m"), ("call:Symbol", "Symbol('m')"), ("call:Symbol-empty-name", "Symbol('')"), ("call:Symbol-empty-name", "Symbol('')*m"), ("call:Symbol", "Symbol('s', positive=True)*m"), ("call:abs", "abs(-1)*m"), ("call:len", "len('aa')*m"),
     ("call:print", "m*print(1)"), ("call:import", "__import__('os').getcwd()"), ("call:open", f"open('{CANARY}','w')"), ("call:eval", "eval('1')*m"), ("call:exec", "exec('x=1')"),
     ("call:getattr", "getattr(m,'name')"), ("call:type", "type(m)"), ("call:max", "max(1,2)*m"), ("call:sin", "sin(1)*m"), ("call:unit", "m(2)"), ("call:sqrt-number", "sqrt(4)*m*0+m"),
     ("attribute", "m.is_real"), ("attribute", "m.__class__"), ("attribute", "(1).__class__"), ("attribute", "m.args"), ("attribute", "().__class__.__bases__"),
